@@ -121,6 +121,20 @@ where
 		status_send_channel: &Option<Sender<StatusMessage>>,
 	) -> Result<(), Error> {
 		self.is_running.store(true, Ordering::Relaxed);
+		let res = self.run_loop(frequency, keychain_mask, status_send_channel);
+		// Whichever way the loop ended, the updater is not running any more. (While the flag is
+		// set, the owner API leaves refreshing to the updater: an updater that died - e.g. with
+		// a token that is not, or no longer, the wallet's - must not leave it set.)
+		self.is_running.store(false, Ordering::Relaxed);
+		res
+	}
+
+	fn run_loop(
+		&self,
+		frequency: Duration,
+		keychain_mask: Option<SecretKey>,
+		status_send_channel: &Option<Sender<StatusMessage>>,
+	) -> Result<(), Error> {
 		loop {
 			let wallet_opened = {
 				let mut w_lock = self.wallet_inst.lock();
